@@ -15,7 +15,7 @@ from onl.sim import Environment
 from onl.sim.core import EmptySchedule
 from onl.sim.events import Initialize, Timeout
 from onl.utils.timer import Timer
-from vlib.util import bits, run_driver, split_cases, quiet
+from vlib.util import bits, unbits, run_driver, split_cases, quiet
 
 ASSUMPTIONS = [
     'timeouts (constructor and restart) are positive finite numbers; other constructor values are refused with ValueError',
@@ -24,7 +24,9 @@ ASSUMPTIONS = [
     'after stop(), restart() re-arms the process but the callback stays suppressed ("never fires again")',
     'time is exact rational in the theorems; the executable model runs at IEEE double and is compared bit for bit',
     'URGENT events (Initialize, Interruption) precede every NORMAL event of their instant (C01 theorems of the kernel model)',
-    'that the Timer generator running on the real kernel refines the LTS is checked by this replay, not proved',
+    'that the Timer generator running on the kernel MODEL refines the LTS is a theorem (Props/C19K.lean: TimerOnK.body, one controller process, '
+    'scalar argument); that the kernel model and the real kernel agree on that program is checked by the timerk leg; for the other '
+    'shapes of use (several actors, several calls per burst, t0 > 0) the link to the LTS is this replay',
 ]
 
 DY = [0.25, 0.5, 0.5, 0.75, 1, 1, 1.5, 2, 3]
@@ -387,6 +389,7 @@ def run(ctx):
         j = json.load(open(ctx.replay))
         cases = [j['case']] if j.get('case') else []
         cases += [d['case'] for d in (j.get('broken_correspondence') or []) if d.get('case')]
+        cases = [c for c in cases if not c.get('timerk')]
     else:
         cases = [gen_case(rng, i) for i in range(n)]
     for i, c in enumerate(cases):
@@ -416,7 +419,162 @@ def run(ctx):
         'action_lines_compared': lines_compared,
         'operation_histogram': dict(sorted(hist.items())),
     }
-    return {'coverage': cov, 'disagreements': disagreements, 'oracle_failures': oracle_failures}
+    kdis, korc, kcov = run_timerk(ctx)        # extra leg: the K program of Props/C19K.lean against the real Timer
+    cov['timer_on_kernel_model'] = kcov
+    return {'coverage': cov, 'disagreements': disagreements + kdis, 'oracle_failures': oracle_failures + korc}
+
+
+# ---- the Timer as processes on the kernel MODEL (lean/OnlVerif/Util/TimerOnK.lean, driver mode `timerk`) -------------
+
+def gen_timerk(rng, cid):
+    """one controller process created before or after the timer; gaps aimed at expiry instants (both sides of the wake);
+    the callback may stop/restart its own timer"""
+    tmo = gen_timeout(rng)
+    auto = rng.random() < 0.5
+    script, last = [], tmo
+    for _ in range(rng.choice([0, 1, 1, 2, 2, 3, 4, 6])):
+        x = rng.random()
+        gap = last if x < 0.35 else (0 if x < 0.45 else gen_delay(rng))
+        op = gen_op(rng)
+        if op[0] == 'restart':
+            last = op[1]
+        script.append([gap, op])
+    cb = []
+    for _ in range(rng.choice([0, 0, 1, 2, 3])):
+        cb.append(None if rng.random() < 0.4 else gen_op(rng))
+    until = min(sum(g for g, _ in script) + 3 * tmo + rng.choice([0.5, 1, 2, 4]), 40.0)
+    return {'cid': f'k{cid}', 'timerk': True, 'auto': auto, 'arg': rng.randint(-5, 99), 'ctl_first': rng.random() < 0.5,
+            'timeout': tmo, 'until': until, 'script': script, 'cb': cb}
+
+
+def timerk_text(c):
+    def opt(op):
+        return 'stop' if op[0] == 'stop' else f'restart {bits(op[1])}'
+    return ([f"CASE {c['cid']} {1 if c['auto'] else 0} {c['arg']} {1 if c['ctl_first'] else 0} {bits(c['timeout'])} {bits(c['until'])} 6000"]
+            + [('cb none' if op is None else 'cb ' + opt(op)) for op in c['cb']]
+            + [f'op {bits(g)} {opt(op)}' for g, op in c['script']] + ['END'])
+
+
+def timerk_impl(c):
+    """the real Timer and a real controller process on the real kernel, public API only; same lines as the driver prints"""
+    env = Environment()
+    hist, fired, box = [], [0], {}
+
+    def callback(*a):
+        hist.append(f'fire {bits(env.now)}' if a == (c['arg'],) else f'fire-with-wrong-args {a}')
+        k = fired[0]
+        fired[0] += 1
+        op = c['cb'][k] if k < len(c['cb']) else None
+        if op is not None:
+            box['t'].stop() if op[0] == 'stop' else box['t'].restart(op[1])
+
+    def controller():
+        for gap, op in c['script']:
+            yield env.timeout(gap)
+            if op[0] == 'stop':
+                hist.append(f'stop {bits(env.now)}')
+                box['t'].stop()
+            else:
+                hist.append(f'restart {bits(op[1])} {bits(env.now)}')
+                box['t'].restart(op[1])
+    try:
+        if c['ctl_first']:
+            env.process(controller())
+        box['t'] = t = Timer(env, c['timeout'], callback, auto_restart=c['auto'], args=c['arg'])
+        if not c['ctl_first']:
+            env.process(controller())
+        with quiet():
+            env.run(until=c['until'])
+        tag = 'RET'
+    except BaseException as x:      # noqa - the property says nothing raises
+        tag = f'RAISED {type(x).__name__}'
+        t = box.get('t')
+    cells = '?' if t is None else (f'cells stopped={1 if t.stopped else 0} expire={bits(t.expire_time)} timeout={bits(t.timeout)} '
+                                   f'start={bits(t.start_time)} fired={fired[0]}')
+    return [tag] + hist + [cells, f'now {bits(env.now)}']
+
+
+def timerk_oracle(c, lines, stats=None):
+    """C19 restated over the implementation's own call/fire history (the acceptor `TimerOnK.ostep`, written again here):
+    a firing happens exactly at the pending instant; no call finds a pending firing overdue; stop is final; restart(tau) at t
+    on a pending timer moves the next firing to t + tau; nothing pending is overdue when the run ends"""
+    if lines[0] != 'RET':
+        return [{'what': f'the run ended with {lines[0]}', 'signature': 'timerk-raised'}]
+    pending, tmo, fired = 0.0 + c['timeout'], c['timeout'], 0
+    for l in lines[1:-2]:
+        w = l.split()
+        if w[0] == 'fire':
+            t = unbits(int(w[1]))
+            if pending is None or bits(pending) != bits(t):
+                return [{'what': f'callback fired at {t!r}, prescribed: {pending!r}', 'signature': 'timerk-fire-instant'}]
+            op = c['cb'][fired] if fired < len(c['cb']) else None
+            fired += 1
+            if op is None:
+                pending = t + tmo if c['auto'] else None
+            elif op[0] == 'stop':
+                pending = None
+            else:
+                pending, tmo = t + op[1], op[1]
+        elif w[0] in ('stop', 'restart'):
+            t = unbits(int(w[-1]))
+            if pending is not None and pending < t:
+                return [{'what': f'no firing at the expiry {pending!r} (next call at {t!r})', 'signature': 'timerk-missed-fire'}]
+            if stats is not None and pending is not None and bits(pending) == bits(t):
+                stats['call-at-expiry-instant:before-the-wake'] += 1
+            if w[0] == 'stop':
+                pending = None
+            else:
+                tau = unbits(int(w[1]))
+                pending, tmo = (t + tau if pending is not None else None), tau
+        else:
+            return [{'what': f'unexpected history line {l}', 'signature': 'timerk-history'}]
+    if pending is not None and pending < c['until']:
+        return [{'what': f'no firing at the expiry {pending!r} (run(until={c["until"]!r}) returned)', 'signature': 'timerk-missed-fire'}]
+    return []
+
+
+def run_timerk(ctx):
+    """extra leg: the K program of the Timer (TimerOnK.body, the object of the theorems in Props/C19K.lean) against the real Timer"""
+    rng = random.Random(f'C19-timerk-{ctx.seed}')
+    if ctx.replay:
+        j = json.load(open(ctx.replay))
+        cases = ([j['case']] if j.get('case') else []) + [d['case'] for d in (j.get('broken_correspondence') or []) if d.get('case')]
+        cases = [c for c in cases if c.get('timerk')]
+    else:
+        cases = [gen_timerk(rng, i) for i in range(400 if ctx.quick else 8000)]
+    text, impl = [], {}
+    for c in cases:
+        impl[c['cid']] = timerk_impl(c)
+        text += timerk_text(c)
+    model = split_cases(run_driver('timerk', '\n'.join(text) + '\n')) if cases else {}
+    dis, orc, hist, nontriv = [], [], collections.Counter(), 0
+    for c in cases:
+        a, b = impl[c['cid']], model.get(c['cid'])
+        if a != b:
+            i = next((i for i in range(max(len(a), len(b or []))) if i >= len(a) or not b or i >= len(b) or a[i] != b[i]), 0)
+            dis.append({'case': c, 'detail': f'timerk line {i}: impl `{a[i] if i < len(a) else None}` model `{b[i] if b and i < len(b) else None}`',
+                        'impl': a[:300], 'model': (b or [])[:300]})
+        st = collections.Counter()
+        for f in timerk_oracle(c, a, st):
+            f['case'] = c; f['trace'] = a[:300]
+            orc.append(f)
+        hist.update(st)
+        ev = [l.split() for l in a[1:-2]]
+        coinc = sum(st.values()) > 0
+        coinc2 = any(x[0] == 'fire' and y[0] != 'fire' and x[-1] == y[-1] for x, y in zip(ev, ev[1:]))   # firing, then call, same instant
+        hist['fires'] += sum(1 for x in ev if x[0] == 'fire')
+        hist['calls'] += sum(1 for x in ev if x[0] != 'fire')
+        hist['call-at-expiry-instant:after-the-wake'] += coinc2
+        hist['callback-calls'] += sum(1 for op in c['cb'][:sum(1 for x in ev if x[0] == 'fire')] if op is not None)
+        hist['controller-first' if c['ctl_first'] else 'timer-first'] += 1
+        if coinc or coinc2 or any(op is not None for op in c['cb']) or len(c['script']) >= 2:
+            nontriv += 1
+    cov = {'evaluations': len(cases), 'distinct_nontrivial': nontriv, 'lines_compared': sum(len(v) for v in impl.values()),
+           'rule': 'random controller scripts and callback scripts run by the K program at Float (driver mode timerk) and by the real Timer with a '
+                   'real controller process under env.run(until=...); non-trivial = a call at the instant of a firing, a call from the '
+                   'callback, or at least two controller calls', 'histogram': dict(sorted(hist.items())),
+           'sample': cases[0] if cases else None}
+    return dis, orc, cov
 
 
 def compare_chunk(runs, model, disagreements, oracle_failures, hist, distinct, samples, nontriv, lines_compared):
